@@ -1,9 +1,9 @@
 (* C07 - Biproportional result meets both marginals and is divisor-consistent.
    Property theorems only.  Model: Model/Biprop.v; proofs: Proofs/Biprop_proofs.v.
 
-   Level of the claim: translation validation.  Tie-and-transfer itself is not proved to reach a
-   fixed point (Pukelsheim's termination argument is out of reach here); instead EVERY output of
-   BiproportionalEvaluator.evaluate is validated by the certificate checker [cert_ok], which is
+   Level of the claim: proof about a model of the whole evaluate (Model/BipropLoop.v: partial correctness, C07_evaluate_*;
+   termination, C07_terminates; the opening refusal, C07_no_votes_refusal*), tied to the code by correspondence; besides,
+   EVERY output of BiproportionalEvaluator.evaluate is validated by the certificate checker [cert_ok], which is
    proved below to be sound and complete for the declarative statement [biprop_spec]:
 
      district totals = district apportionment, party totals = party apportionment, no seat without
@@ -17,7 +17,7 @@
 From Coq Require Import ZArith QArith List Bool Lia.
 From VL Require Import Prelude.PyDict Model.Divisor Model.HighestAverages Model.Biprop Model.BipropLoop
      Proofs.Dict_proofs Proofs.Divisor_proofs Proofs.Biprop_proofs Proofs.Biprop_steps Proofs.BipropRow_proofs
-     Proofs.BipropLoop_proofs Proofs.BipropInit_proofs Proofs.BipropProgress_proofs.
+     Proofs.BipropLoop_proofs Proofs.BipropInit_proofs Proofs.BipropProgress_proofs Proofs.BipropTerm_proofs.
 Import ListNotations.
 Open Scope Z_scope.
 
@@ -159,8 +159,9 @@ Qed.
    evaluator knows q for d_hondt (0) and sainte_lague (1/2), i.e. d s = k (s + 1 - q) with k = 1 / k = 2.
    Hypotheses: the vote matrix is a dict of dicts (keys without repetition) of non-negative integers, one of them
    positive; n >= 0; [dorder] (the iteration order of the frozenset of district names, which is where Python's set
-   order reaches the algorithm) lists every district.  NOT claimed: termination - running out of fuel (and every
-   refusal: BP_refused, BP_zero_division, BP_key_error, BP_value_error, a tied marginal) is a different constructor. *)
+   order reaches the algorithm) lists every district.  Running out of fuel (and every refusal: BP_no_votes, BP_refused,
+   BP_zero_division, BP_key_error, BP_value_error, a tied marginal) is a different constructor; that the fuel of 7' (e)
+   is never exhausted is the termination theorem C07_terminates. *)
 
 (* 1. the loop invariant (party totals, no seat without votes, positive multipliers, every cell between its
       signposts s - q <= votes x rho x gamma <= s + 1 - q) is kept by ONE iteration, whatever it does *)
@@ -284,10 +285,10 @@ Proof.
     [discriminate|reflexivity|reflexivity|exact sainte_lague_signposts].
 Qed.
 
-(* 7. a progress measure (NOT a termination proof): the flaw count - the sum over the districts of |seats held - seats due| -
+(* 7. the progress measure of the transfers: the flaw count - the sum over the districts of |seats held - seats due| -
       drops by exactly 2 with every seat transfer, which leaves the multipliers alone; a multiplier update leaves the seat
       matrix, hence the flaw count, alone.  At most flaw/2 transfers can happen; the number of consecutive multiplier
-      updates is not bounded here (Pukelsheim's argument: every update labels one more row or column) *)
+      updates is bounded in 7' (every update labels one more row or column) *)
 Theorem C07_transfer_progress : forall q votes pseats tgt dorder s s', (q < 1)%Q -> wf_votes votes -> NoDup dorder ->
   BInv q votes pseats s -> bstep q votes tgt dorder s = Next s' ->
   (flaw tgt dorder (b_res s') = flaw tgt dorder (b_res s) - 2 /\ b_rho s' = b_rho s /\ b_gamma s' = b_gamma s) \/
@@ -297,6 +298,98 @@ Definition C07_termination_full_statement : Prop := forall d q k votes n tgt dor
   (0 <= q)%Q -> (q < 1)%Q -> (0 < k)%Q -> (forall z, d z == k * (inject_Z z + 1 - q))%Q ->
   wf_votes votes -> (forall i j, 0 <= mget votes i j) -> NoDup dorder ->
   exists fuel, evaluate_core d q votes tgt dorder true n fuel <> BP_out_of_fuel.
+
+(* 7'. TERMINATION.  (a) What the labelling search computes: exactly the districts / parties reachable from the
+       over-represented districts along tied cells ([Reach]: a labelled district reaches a party through a cell that can
+       give a seat away, a labelled party reaches a district through a cell that can take one), whenever it ends without
+       touching an under-represented district (the case in which the multipliers are updated) *)
+Theorem C07_labelling_is_reachability : forall q quots res ps ds under over LD LP, NoDup over ->
+  labeled q ps ds quots res under over = Lab LD LP ->
+  sort_pos (filter (fun i => dmem LD i) under) = [] ->
+  NoDup (map fst LD) /\ NoDup (map fst LP) /\
+  (forall i, In i (map fst LD) <-> Reach q quots res (sort_pos ps) ds over (inl i)) /\
+  (forall p, In p (map fst LP) <-> Reach q quots res (sort_pos ps) ds over (inr p)).
+Proof.
+  intros q quots res ps ds under over LD LP Hov H Hn.
+  unfold labeled in H. change (map (fun i => (i, @None C)) over) with (LD0 over) in H.
+  destruct (lab_loop_spec q quots res (sort_pos ps) ds under over _ _ _ _ _ (LInv_init q quots res (sort_pos ps) ds over Hov) H) as [I Cl].
+  specialize (Cl (no_under_labelled LD under Hn)).
+  split; [apply (li_ndD _ _ _ _ _ _ _ _ I)|]. split; [apply (li_ndP _ _ _ _ _ _ _ _ I)|]. split.
+  - intros i. split; [apply (li_reachD _ _ _ _ _ _ _ _ I)|apply (closed_complete _ _ _ _ _ _ _ _ I Cl (inl i))].
+  - intros p. split; [apply (li_reachP _ _ _ _ _ _ _ _ I)|apply (closed_complete _ _ _ _ _ _ _ _ I Cl (inr p))].
+Qed.
+
+(* (b) the progress of a multiplier update: the accepted adjustment coefficient is attained at a cell, which the update puts
+       exactly on a signpost, while cells between two labelled lines keep their quotient - so every label survives and, if
+       the next iteration is an accepted update again, it labels strictly more lines (otherwise its coefficient would be
+       >= 1: a refusal).  At most |districts| + |parties| + 1 updates follow one another *)
+Theorem C07_update_progress : forall q votes pseats s under over LD LP a LD' LP' a',
+  (q < 1)%Q -> wf_votes votes -> BInv q votes pseats s -> NoDup over ->
+  labeled q (parties votes) (districts votes) (calc_quots votes (b_rho s) (b_gamma s)) (b_res s) under over = Lab LD LP ->
+  sort_pos (filter (fun i => dmem LD i) under) = [] ->
+  adj_coef q (calc_quots votes (b_rho s) (b_gamma s)) (b_res s) (map fst LD) (map fst LP) = Adj a ->
+  Qeq_bool a 0 || Qle_bool 1 a = false ->
+  let rho' := scale_rho_r (map fst LD) a (b_rho s) in
+  let gamma' := scale_gamma_r (map fst LP) a (b_gamma s) in
+  labeled q (parties votes) (districts votes) (calc_quots votes rho' gamma') (b_res s) under over = Lab LD' LP' ->
+  sort_pos (filter (fun i => dmem LD' i) under) = [] ->
+  adj_coef q (calc_quots votes rho' gamma') (b_res s) (map fst LD') (map fst LP') = Adj a' ->
+  Qeq_bool a' 0 || Qle_bool 1 a' = false ->
+  (length LD + length LP < length LD' + length LP')%nat /\
+  (length over <= length LD + length LP)%nat /\
+  (length LD' + length LP' <= length over + length (districts votes) + length (parties votes))%nat.
+Proof.
+  intros q votes pseats s under over LD LP a LD' LP' a' Hq1 Hwf I Hov El Hn Ha Hc rho' gamma' El' Hn' Ha' Hc'.
+  split; [exact (update_progress q Hq1 votes Hwf pseats s under over LD LP a LD' LP' a' I Hov El Hn Ha Hc El' Hn' Ha' Hc')|].
+  pose proof (labeled_count q votes _ _ _ _ _ _ Hov El) as [H1 _].
+  pose proof (labeled_count q votes _ _ _ _ _ _ Hov El') as [_ H2]. unfold K in H2. split; [exact H1|]. lia.
+Qed.
+
+(* (c) neither the labelling search nor the path walk exhausts its own fuel: an iteration never stops with the out-of-fuel
+       answer *)
+Theorem C07_step_never_out_of_fuel : forall q votes tgt dorder s, NoDup dorder ->
+  bstep q votes tgt dorder s <> Stop BP_out_of_fuel.
+Proof. intros q votes tgt dorder s Hdo. exact (bstep_fuel q votes tgt dorder Hdo s). Qed.
+
+(* (d) from ANY state satisfying the loop invariant the loop ends within (flaw / 2 + 1) * (|districts| + |parties| + 2)
+       iterations: with that much fuel the out-of-fuel answer is unreachable *)
+Theorem C07_loop_terminates : forall q votes pseats tgt dorder fuel s,
+  (0 <= q)%Q -> (q < 1)%Q -> wf_votes votes -> NoDup dorder -> BInv q votes pseats s ->
+  ((Z.to_nat (flaw tgt dorder (b_res s) / 2) + 1) * (length (districts votes) + length (parties votes) + 2) <= fuel)%nat ->
+  bloop q votes tgt dorder fuel s <> BP_out_of_fuel.
+Proof.
+  intros q votes pseats tgt dorder fuel s Hq0 Hq1 Hwf Hdo I Hf.
+  apply (bloop_terminates q Hq0 Hq1 votes Hwf pseats tgt dorder Hdo fuel s 0%nat I (upd_min_0 q votes tgt dorder Hdo s)); [lia|].
+  unfold K. nia.
+Qed.
+
+(* (e) the whole evaluate (the code as it stands: [strict] = true) terminates: [fuel_bound] = (flaw of the initial
+       solution / 2 + 1) * (|districts| + |parties| + 2) iterations suffice, for every vote matrix of non-negative integers,
+       every n (also negative), every target dictionary and every iteration order without repetition *)
+Theorem C07_terminates : forall d q k votes n tgt dorder fuel,
+  (0 <= q)%Q -> (q < 1)%Q -> (0 < k)%Q -> (forall z, d z == k * (inject_Z z + 1 - q))%Q ->
+  wf_votes votes -> (forall i j, 0 <= mget votes i j) -> NoDup dorder ->
+  (fuel_bound d q votes tgt dorder n <= fuel)%nat ->
+  evaluate_core d q votes tgt dorder true n fuel <> BP_out_of_fuel.
+Proof.
+  intros d q k votes n tgt dorder fuel Hq0 Hq1 Hk Hd Hwf Hv Hdo Hf.
+  exact (evaluate_core_terminates d q k Hq0 Hq1 Hk Hd votes Hwf Hv dorder Hdo true tgt n fuel (or_introl eq_refl) Hf).
+Qed.
+Theorem C07_total_terminates : forall d q k votes n dorder fuel,
+  (0 <= q)%Q -> (q < 1)%Q -> (0 < k)%Q -> (forall z, d z == k * (inject_Z z + 1 - q))%Q ->
+  wf_votes votes -> (forall i j, 0 <= mget votes i j) -> NoDup dorder ->
+  (fuel_bound_total d q votes dorder n <= fuel)%nat ->
+  evaluate_total d q votes true n dorder fuel <> BP_out_of_fuel.
+Proof.
+  intros d q k votes n dorder fuel Hq0 Hq1 Hk Hd Hwf Hv Hdo Hf.
+  exact (evaluate_total_terminates d q k Hq0 Hq1 Hk Hd votes Hwf Hv dorder Hdo true n fuel (or_introl eq_refl) Hf).
+Qed.
+(* ... so the termination clause, kept as a full statement until wave 6, is a theorem *)
+Theorem C07_termination : C07_termination_full_statement.
+Proof.
+  intros d q k votes n tgt dorder Hq0 Hq1 Hk Hd Hwf Hv Hdo. exists (fuel_bound d q votes tgt dorder n).
+  apply (C07_terminates d q k votes n tgt dorder _ Hq0 Hq1 Hk Hd Hwf Hv Hdo). apply le_n.
+Qed.
 
 (* 8. what the wire unit 105 runs (one pass that returns the trace and the outcome) IS the model of the theorems above *)
 Theorem C07_unit_runs_the_model : forall d q votes tgt dorder strict n fuel,
@@ -376,6 +469,13 @@ Example C07_example_whole_loop :
                        [(1%positive, 1); (2%positive, 1)]%Q [(1%positive, 1 # 10); (2%positive, 1 # 8)]%Q)) = 2%nat.
 Proof. vm_compute. split; reflexivity. Qed.
 
+(* the fuel bound of the termination theorem on the example: (2 / 2 + 1) * (2 + 2 + 2) = 12 iterations suffice (the run takes 2) *)
+Example C07_example_fuel_bound :
+  fuel_bound d_hondt 0 ex_votes [(2%positive, 3); (1%positive, 2)] [1%positive; 2%positive] 5 = 12%nat /\
+  fuel_bound_total d_hondt 0 ex_votes [1%positive; 2%positive] 5 = 12%nat /\
+  NoDup [1%positive; 2%positive].
+Proof. split; [vm_compute; reflexivity|]. split; [vm_compute; reflexivity|]. repeat constructor; simpl; intuition discriminate. Qed.
+
 (* the refusal theorems are not vacuous: a matrix without votes whose party marginal is tie-free, refused by the model *)
 Example C07_example_no_votes :
   has_votes zero_votes = false /\ ha_marginal d_hondt (party_totals zero_votes) 1 = Some [(1%positive, 1)] /\
@@ -411,4 +511,11 @@ Print Assumptions C07_d_hondt_partial_correct.
 Print Assumptions C07_sainte_lague_partial_correct.
 Print Assumptions C07_all_zero_refuted.
 Print Assumptions C07_transfer_progress.
+Print Assumptions C07_labelling_is_reachability.
+Print Assumptions C07_update_progress.
+Print Assumptions C07_step_never_out_of_fuel.
+Print Assumptions C07_loop_terminates.
+Print Assumptions C07_terminates.
+Print Assumptions C07_total_terminates.
+Print Assumptions C07_termination.
 Print Assumptions C07_unit_runs_the_model.
